@@ -11,8 +11,8 @@ RULE = ('flat cases: a data set of n sorted entries (group key, start, DNA seque
         'several n, sum_and_n / mean / bincount / histogram (explicit bins+range) / count_kmers (k=1,2,3) on the stream, and '
         'groupby on four kinds of key column (StringArray, EncodedRaggedArray, int, StringEncoding-encoded). genome cases: '
         'genomes of 1..4 chromosomes, chunked interval streams through Genome.get_intervals(stream) and bnp.compute for '
-        'pileup, mask, pileup sum, histogram, (histogram,sum), values under windows, and mean(axis=0) / sum(axis=0) / np.sum of '
-        'those; values under STRANDED windows (strand symbols + - . , a . or + window placed over a non-palindromic signal) and their '
+        'pileup, mask, pileup sum, histogram, (histogram,sum), values under windows, and mean(axis=0) / sum(axis=0) / sum(axis=-1) / np.sum of '
+        'those (every sum as function and as method, axis as keyword, positional or absent; layouts with chromosomes without windows and windows of unequal length built on purpose); values under STRANDED windows (strand symbols + - . , a . or + window placed over a non-palindromic signal) and their '
         'mean(axis=0); arithmetic on the streamed pileup (30 expressions: - ** // % and comparisons with the plain value on the left '
         'and on the right, node-with-node in both orders) queried by get_data / sum / histogram / values under windows; '
         'windows around the interval starts in every keyword form (get_windows(flank=0..3), get_windows(window_size=1..6), odd and even): '
@@ -38,9 +38,10 @@ ASSUMPTIONS = ['keyword-form sweep (case kind kw): merged / clip / get_location 
                'count_kmers is exercised for k in {1,2,3} (k=1 since the window-of-one repair recorded under C13)',
                'floats (mean, histogram edges) are compared as exact rationals: streamed == in-memory, and within 2^-52 '
                'relative of the exact quotient']
-PARTIAL = ['C11_pipeline_spec holds under pipeline_guard: sum(axis=0) of the values under windows needs windows on every chromosome '
-           'with equal column counts and np.sum a single chromosome (C11_pipeline_sum_refuted); mean(axis=0) needs no guard since '
-           'the repair of mean_reduction (C11_pipeline_spec_pinned / C11_pipeline_mean_refuted are history about the pinned `+`)',
+PARTIAL = ['pipeline_guard in C11_pipeline_spec is True for every pipeline of the current code (np.sum / sum(axis=0) / sum(axis=-1) of the '
+           'values under windows are stated without guard in C11_pipeline_sum_spec since fix-3); it is non-trivial only for the two '
+           'history constructors PValuesSumPinned / PValuesSum0Pinned that keep reductions_map[np.sum] = operator.add as it was '
+           '(C11_pipeline_sum_refuted), like C11_pipeline_spec_pinned / C11_pipeline_mean_refuted for the pinned mean_reduction',
            'C11_rechunk_partial / C11_rechunk_refuted speak about chunk_entries_pinned (the `if` of the pinned commit); the current '
            'code is covered by the full C11_rechunk_fixed']
 PER_FILE = 24
@@ -61,6 +62,13 @@ EXPRS = [
 ]
 COMPARISONS = ('gt', 'lt', 'ge', 'le', 'eq', 'ne')
 EXPR_HIST = (4, -2, 6)
+# call forms of the sums of the values x under the windows (np is passed in so that the table can live at module level)
+SUM_FORMS = {
+    'sumall': lambda np, x: np.sum(x), 'sumall_m': lambda np, x: x.sum(), 'sumall_k': lambda np, x: np.sum(x, axis=None),
+    'sum0': lambda np, x: x.sum(axis=0), 'sum0_np': lambda np, x: np.sum(x, axis=0), 'sum0_pos': lambda np, x: np.sum(x, 0),
+    'sum1': lambda np, x: x.sum(axis=-1), 'sum1_np': lambda np, x: np.sum(x, axis=-1), 'sum1_pos': lambda np, x: np.sum(x, -1),
+}
+SUM_PIPE = dict(sumall='PValuesSum', sum0='PValuesSum0', sum1='PValuesSum1')
 WARGS = [['flank', 0], ['flank', 1], ['flank', 2], ['flank', 3], ['window_size', 1], ['window_size', 2], ['window_size', 3],
          ['window_size', 4], ['window_size', 5], ['window_size', 6]]
 
@@ -209,7 +217,7 @@ def generate(tier, seed):
             for i, sa in enumerate(comps_a):
                 sb = [len(b)] if i % 3 == 0 else ([1] * len(b) if i % 3 == 1 else random_composition(rng, len(b), 0.5))
                 cases.append(_gen(sizes, a, b, sa, sb))
-                for kind in ('genmean', 'gensum', 'gensum0'):
+                for kind in ('genmean', 'gensum', 'gensum0', 'gensum1'):
                     cases.append(_gen(sizes, a, b, sa, sb, kind=kind))
                 if i % 2 == 0 or not quick:
                     # stranded windows: the windows of b with a strand symbol each ('.' included), same chunking
@@ -230,6 +238,15 @@ def generate(tier, seed):
                     c = _gen(sizes, a, b, sa, sb, kind='genwin')
                     c['wargs'] = [WARGS[(len(cases) + 3 * j) % len(WARGS)] for j in range(3)]
                     cases.append(c)
+    # --- the layouts on which the reductions of np.sum used to fail, built on purpose: windows only on the first / the last /
+    #     the outer chromosomes, the longest window on a later / an earlier chromosome, one window per chromosome
+    a3 = [[0, 1, 5], [1, 2, 6], [1, 3, 7], [2, 0, 4]]
+    for b3 in ([[0, 1, 3], [0, 0, 4]], [[2, 1, 3], [2, 0, 4]], [[0, 1, 3], [2, 0, 5]], [[1, 2, 6]],
+               [[0, 2, 3], [1, 1, 4], [2, 0, 6]], [[0, 0, 6], [1, 1, 4], [2, 2, 3]], [[0, 1, 3], [1, 2, 4], [2, 0, 2]],
+               [[0, 0, 2], [0, 1, 6], [1, 2, 3], [2, 0, 5], [2, 1, 2]]):
+        for sa, sb in (([4], [len(b3)]), ([1, 1, 1, 1], [1] * len(b3)), ([2, 2], random_composition(rng, len(b3), 0.5))):
+            for kind in ('genmean', 'gensum', 'gensum0', 'gensum1'):
+                cases.append(_gen([8, 8, 6], a3, b3, sa, sb, kind=kind))
     # small cases first
     # --- keyword forms of the flat reductions and of the streamed interval operations (observation equality)
     for rep in range(3 if quick else 20):
@@ -242,7 +259,7 @@ def generate(tier, seed):
     big_reads = [[[0, 400000], [1, 300000]], [[2, 250000], [3, 150003]], [[0, 1], [1, 1], [2, 1], [3, 1]] * 3]
     cases.append(dict(kind='big', reads=big_reads, sizes=[1, 1, 1]))          # every chunk below the block size
     cases.append(dict(kind='big', reads=big_reads, sizes=[2, 1]))             # first chunk 1,100,003 values
-    order = dict(rechunk=0, flat=1, kw=1, big=1, gen=2, genmean=3, gensum=4, gensum0=5, genstrand=6, genstrandmean=7, genexpr=8, genwin=9)
+    order = dict(rechunk=0, flat=1, kw=1, big=1, gen=2, genmean=3, gensum=4, gensum0=5, gensum1=5, genstrand=6, genstrandmean=7, genexpr=8, genwin=9)
     cases.sort(key=lambda c: (order[c['kind']], _n_of(c), len(c['sa'] if 'sa' in c else c['sizes'])))
     return cases
 
@@ -415,10 +432,13 @@ def _observe_gen(case):
          lambda: hs((lambda p: (np.histogram(p, bins=k, range=(lo, hi)), p.sum()))(ma.get_pileup()))),
         ('values', lambda: ragged(bnp.compute(sa().get_pileup()[sb()])), lambda: ragged(ma.get_pileup()[mb])),
         ('mean0', lambda: ratios(bnp.compute(sa().get_pileup()[sb()].mean(axis=0))), lambda: ratios(ma.get_pileup()[mb].mean(axis=0))),
-        ('sumall', lambda: ints(bnp.compute(np.sum(sa().get_pileup()[sb()]))), lambda: ints(np.sum(ma.get_pileup()[mb]))),
-        ('sum0', lambda: ints(bnp.compute(sa().get_pileup()[sb()].sum(axis=0))), lambda: ints(ma.get_pileup()[mb].sum(axis=0))),
     ]
-    own = dict(genmean='mean0', gensum='sumall', gensum0='sum0')
+    # np.sum of the values under the windows in every call form: function / method, axis as keyword / positional / absent
+    for name, f in SUM_FORMS.items():
+        pipes.append((name, (lambda f=f: ints(bnp.compute(f(np, sa().get_pileup()[sb()])))), (lambda f=f: ints(f(np, ma.get_pileup()[mb])))))
+    own = dict(genmean=['mean0'], gensum=[n for n in SUM_FORMS if n.startswith('sumall')],
+               gensum0=[n for n in SUM_FORMS if n.startswith('sum0')], gensum1=[n for n in SUM_FORMS if n.startswith('sum1')])
+    owned = set(sum(own.values(), []))
     if case['kind'] in ('genstrand', 'genstrandmean'):
         return _observe_stranded(case, genome, names, ta, ma, sa, ragged, ratios)
     if case['kind'] == 'genwin':
@@ -427,7 +447,7 @@ def _observe_gen(case):
         return _observe_expr(case, genome, ta, tb, sa, sb, ma, mb, track_rows, mask_rows, ragged)
     out = {}
     for name, fs, fm in pipes:
-        if (name in own.values()) != (case['kind'] in own) or (case['kind'] in own and own[case['kind']] != name):
+        if (name in owned) != (case['kind'] in own) or (case['kind'] in own and name not in own[case['kind']]):
             continue
         r = []
         for f in (fs, fm):
@@ -765,50 +785,9 @@ def _chrom_rows(case):
     return out
 
 
-def _predict(case):
-    """what the MODEL of the current reductions gives for the single pipeline of a genmean/gensum/gensum0 case:
-    ('error',) or ('value', list) — used only to make the finding matchers exact"""
-    rows = _chrom_rows(case)
-    if case['kind'] == 'gensum':                       # operator.add on per-window sums, NumPy broadcasting
-        acc = None
-        for r in rows:
-            v = [sum(x) for x in r]
-            if acc is None:
-                acc = v
-            elif len(acc) == len(v):
-                acc = [x + y for x, y in zip(acc, v)]
-            elif len(acc) == 1:
-                acc = [acc[0] + y for y in v]
-            elif len(v) == 1:
-                acc = [x + v[0] for x in acc]
-            else:
-                return ('error',)
-        return ('value', acc)
-    ncols = [max(len(x) for x in r) if r else None for r in rows]
-    if case['kind'] == 'gensum0':                      # operator.add on column sums: every chromosome needs windows
-        if None in ncols or len(set(ncols)) > 1:
-            return ('error',)
-        return ('value', None)
-    return ('value', None)
-
-
-FINDING_OF = dict(gensum=('sumall', 'C11-sum-values-per-window'), gensum0=('sum0', 'C11-sum-axis0-ragged-columns'))
-
-
 def finding(case, o):
-    """an id only when the observed failure is exactly the listed mode: the in-memory evaluation is fine, and the streamed
-    observation is what the model of the current reduction predicts (so a disagreement with the model is never matched)"""
-    if case['kind'] not in FINDING_OF:
-        return None
-    name, fid = FINDING_OF[case['kind']]
-    s, m = o[name]
-    if _is_err(m):
-        return None
-    pred = _predict(case)
-    if pred == ('error',):
-        return fid if _is_err(s) and s['error'] in ('AssertionError', 'ValueError', 'ComputationException') else None
-    if case['kind'] == 'gensum' and pred[1] is not None and not _is_err(s) and s == pred[1] and s != m and len(case['sizes']) >= 2:
-        return fid
+    """no known finding is left for C11: C11-sum-values-per-window and C11-sum-axis0-ragged-columns were repaired by fix-3
+    (the reduction of np.sum is chosen by its axis), their former witnesses are ordinary regression cases in corpus/C11"""
     return None
 
 
@@ -885,7 +864,7 @@ def _pobs(name, v):
         return 'OHistSum %s %s' % (zl(v[0]), cz(v[1]))
     if name == 'values':
         return 'OValues %s' % _zll(v)
-    if name in ('sumall', 'sum0'):
+    if name in SUM_FORMS:
         return 'OList %s' % zl(v)
     if name == 'ivs':
         return 'OIvs %s' % clist(['(%s, %s, %s)' % tuple(cz(x) for x in r) for r in v], '(Z * Z * Z)')
@@ -903,9 +882,9 @@ def _gen_to_coq(case, o):
     k, lo, hi = case['hist']
     pipe = dict(pileup='PPileup', mask='PMask', sum='PPileupSum', hist='(PPileupHist %s %s %s)' % (cz(k), cz(lo), cz(hi)),
                 hist_sum='(PHistAndSum %s %s %s)' % (cz(k), cz(lo), cz(hi)), values='PValues', mean0='PValuesMean0',
-                sumall='PValuesSum', sum0='PValuesSum0')
+                **{n: SUM_PIPE[n.split('_')[0]] for n in SUM_FORMS})
     runs = ['(%s, %s, %s)' % (pipe[name], _pobs(name, o[name][0]), _pobs(name, o[name][1]))
-            for name in ('pileup', 'mask', 'sum', 'hist', 'hist_sum', 'values', 'mean0', 'sumall', 'sum0') if name in o]
+            for name in ('pileup', 'mask', 'sum', 'hist', 'hist_sum', 'values', 'mean0') + tuple(SUM_FORMS) if name in o]
     code = {'+': 0, '-': 1, '.': 2}
     wchunks, sruns, eruns = [], [], []
     if case['kind'] in ('genstrand', 'genstrandmean'):
@@ -1001,7 +980,7 @@ def describe(case, o):
 
 
 def distribution(cases, obs):
-    d = dict(flat=0, rechunk=0, gen=0, genmean=0, gensum=0, gensum0=0, genstrand=0, genstrandmean=0, genexpr=0, genwin=0, kw=0, big=0, n_entries={}, n_chunks={}, single_entry_chunks=0, cut_inside_group=0, chromosomes={},
+    d = dict(flat=0, rechunk=0, gen=0, genmean=0, gensum=0, gensum0=0, gensum1=0, genstrand=0, genstrandmean=0, genexpr=0, genwin=0, kw=0, big=0, n_entries={}, n_chunks={}, single_entry_chunks=0, cut_inside_group=0, chromosomes={},
              streamed_errors={})
     for c, o in zip(cases, obs):
         d[c['kind']] += 1
